@@ -100,6 +100,12 @@ func checkC14(c *Ctx, r *Report) {
 		}
 		r.add("C14.a", "nilarg", s.Key, desc, []string{s.Caller}, []string{w.pos(s.Pos)}, viol)
 	}
+	// reduced models keep one entry per declared field: instantiateGenericModel indexes them by declaration index
+	ruleEach(c, r, "C14.b", "(core/metadata.StructMeta).Reduce",
+		func(fi *FuncInfo) func(ast.Expr) bool { return w.rangeOverField(fi, "core/metadata.StructMeta.Fields") }, "s.Fields",
+		func(fi *FuncInfo) func(ast.Node) bool { return w.callPred(fi, "(core/metadata.FieldMeta).Reduce") }, "field.Reduce", nil, true,
+		"StructMeta.Reduce yields exactly one reduced field per declared field (index-compatible with the declaration; a filtered list makes instantiateGenericModel index out of range)")
+	ruleSkipInventory(c, r, "C14.b", loadSkipTable(c.VerifDir), 1, "core/metadata")
 	// file-system errors are never lost: after a failing os/io call every way on is a failure exit
 	checkIOErrors(c, r, tbl)
 
